@@ -71,6 +71,14 @@ pub fn run_bfs_part(scn: &dyn Scenario, lim: &Limits) -> PartResult {
     r.cap = out.stats.cap_hit.clone();
     r.samples = out.stats.samples.clone();
     r.violations = out.violations;
+    // transcripts only for the first violation of each signature (the one that is
+    // written out); computed here, when no other world is alive on this thread
+    let mut seen_sig = BTreeSet::new();
+    for v in r.violations.iter_mut() {
+        if seen_sig.insert(v.sig.clone()) {
+            v.transcript = bfs::transcript(scn, &v.history);
+        }
+    }
     r.machinery = out.machinery;
     let goals: BTreeSet<String> = scn.goals().iter().map(|g| g.to_string()).collect();
     r.goals_missing = goals.difference(&out.stats.goals_hit).cloned().collect();
@@ -306,6 +314,27 @@ pub fn replay(path: &str, find: &dyn Fn(&str, &str) -> Option<Box<dyn Scenario>>
     let scn_name = v["scenario"].as_str().unwrap_or("");
     let sig = v["signature"].as_str().unwrap_or("");
     let hist: Vec<Act> = v["history"].as_array().map(|a| a.iter().filter_map(Act::from_json).collect()).unwrap_or_default();
+    if scn_name.starts_with("fun:") || scn_name.starts_with("int:") {
+        let input: Value = v["transcript"].as_array().and_then(|a| a.first()).and_then(|x| x.as_str()).and_then(|x| serde_json::from_str(x).ok()).unwrap_or(json!({}));
+        println!("input: {}", input);
+        let f1 = crate::props::replay_fun(prop, scn_name, &input);
+        let f2 = crate::props::replay_fun(prop, scn_name, &input);
+        for f in &f1 {
+            println!("  finding {}: {}", f.sig, f.detail);
+        }
+        let s1: Vec<&String> = f1.iter().map(|f| &f.sig).collect();
+        let s2: Vec<&String> = f2.iter().map(|f| &f.sig).collect();
+        if s1 != s2 {
+            eprintln!("MACHINERY: replay is not deterministic");
+            return 2;
+        }
+        if f1.is_empty() {
+            println!("replay shows no violation on the current tree");
+            return 0;
+        }
+        println!("VIOLATION property={} replay={}", prop, path);
+        return 1;
+    }
     let scn = match find(prop, scn_name) {
         Some(s) => s,
         None => {
@@ -377,6 +406,9 @@ pub fn replay_once(scn: &dyn Scenario, hist: &[Act]) -> (Vec<crate::check::Findi
                     // a probe is judged with the probe focus
                     if findings.is_empty() {
                         findings.extend(judge(scn, &cfg, &scn.probe_focus(), &pre, &obs, &post, &mut goals, &mut st));
+                    }
+                    if findings.is_empty() {
+                        findings.extend(scn.after_step(&mut w, &pre, &obs, &post, &mut goals));
                     }
                 }
             }
